@@ -5,6 +5,7 @@ import ScrapliModel.Auth
 import ScrapliModel.AuthTable
 import ScrapliModel.Generated.Patterns
 import ScrapliModel.Generated.Consts
+import ScrapliModel.Generated.AuthPool
 namespace Driver.C10
 open Driver.C01
 open Scrapli Scrapli.Chan Scrapli.Auth
@@ -15,13 +16,25 @@ def c10rx (name : String) (b : Bytes) : Bool :=
   | some re => Rx.isMatch re b
   | none => false
 
-/-- the matchers of the code: extracted patterns + extracted ssh failure table -/
-def c10pats : Pats :=
-  { promptP := fun b => Rx.isMatch Gen.Rx.Channel.promptPattern b,
-    userP := fun b => Rx.isMatch Gen.Rx.Channel.username b,
-    passP := fun b => Rx.isMatch Gen.Rx.Channel.password b,
-    phraseP := fun b => Rx.isMatch Gen.Rx.Channel.passphrase b,
+/-- the matchers of the code: extracted patterns (or the custom set `ps` of the generated pool, as
+    set through options / a platform definition) + extracted ssh failure table; `nc`: the netconf
+    driver replaces the prompt pattern by the 1.0 end-of-message delimiter -/
+def c10pats (ps : Nat) (nc : Bool) : Pats :=
+  let (u, p, f, pr) := match Gen.AuthPool.pool[ps]? with
+    | some (_, u, p, f, pr) => (u, p, f, pr)
+    | none => (none, none, none, none)
+  let prompt := if nc then Gen.Rx.Netconf.v1Dot0Delim else pr.getD Gen.Rx.Channel.promptPattern
+  { promptP := fun b => Rx.isMatch prompt b,
+    userP := fun b => Rx.isMatch (u.getD Gen.Rx.Channel.username) b,
+    passP := fun b => Rx.isMatch (p.getD Gen.Rx.Channel.password) b,
+    phraseP := fun b => Rx.isMatch (f.getD Gen.Rx.Channel.passphrase) b,
     sshErr := sshErrGen c10rx }
+
+def c10prompt (ps : Nat) (nc : Bool) : Rx.Re :=
+  if nc then Gen.Rx.Netconf.v1Dot0Delim else
+  match Gen.AuthPool.pool[ps]? with
+  | some (_, _, _, _, some pr) => pr
+  | _ => Gen.Rx.Channel.promptPattern
 
 def c10cfg (depth : Nat) (ret user pass phrase : Bytes) : Auth.Cfg :=
   { depth := depth, ret := ret, user := user, pass := pass, phrase := phrase,
@@ -66,36 +79,40 @@ def redactedOk : List Ev → Bool
     `<dom> <spec> <speclines> <outcome> <closed> <writes> <credlines> <buf> <first> <found> <paired>`
     `c10 ssherr <hex>` → 0/1; `c10 consts` → the three extracted limits -/
 def handleC10 : List String → String
-  | "open" :: fl :: depth :: user :: pass :: phrase :: ret :: st =>
-    match depth.toNat?, fromHex user, fromHex pass, fromHex phrase, fromHex ret, parseStages st with
-    | some d, some user, some pass, some phrase, some ret, some (first :: rest) =>
-      let flv : Flavour := if fl == "s" then .ssh else .telnet
+  | "open" :: fl :: pset :: depth :: user :: pass :: phrase :: ret :: st =>
+    match pset.toNat?, depth.toNat?, fromHex user, fromHex pass, fromHex phrase, fromHex ret, parseStages st with
+    | some ps, some d, some user, some pass, some phrase, some ret, some (first :: rest) =>
+      -- flavours: s ssh, t telnet, n ssh login of the netconf driver, b no in-channel authentication
+      let nc := fl == "n"
+      let flv : Flavour := if fl == "s" || nc then .ssh else .telnet
       let cfg := c10cfg d ret user pass phrase
-      let P := c10pats
-      let dom := match flv with
+      let P := c10pats ps nc
+      let noAuth := fl == "b"
+      let dom := noAuth || match flv with
         | .ssh => wfSSH P first rest
         | .telnet => wfTel P cfg.depth first rest
       let kinds := rest.map (·.kind)
       -- the specification uses the limits the PROPERTY fixes ("at most twice"), the model those of the code
       let pcfg := { cfg with uMax := 2, pMax := 2, ppMax := 2 }
-      let sp := spec pcfg 0 0 0 first.kind kinds
-      let sl := specLines pcfg 0 0 0 first.kind kinds
-      let r := openScript flv P cfg first rest
+      let sp := if noAuth then .ok else spec pcfg 0 0 0 first.kind kinds
+      let sl := if noAuth then [] else specLines pcfg 0 0 0 first.kind kinds
+      let r := if noAuth then openNoAuth (rest.map (·.chunks)) (first.chunks ++ (rest.map (·.chunks)).flatten)
+               else openScript flv P cfg first rest
       let lg := login flv P cfg scriptReact (rest.map (·.chunks)) first.chunks
       let firstRead := readUntil (fun rb => P.promptP (window rb cfg.depth)) r.queue []
       let (fst, found) := match firstRead with
         | none => ("none", "none")
-        | some (b, _) => (toHex b, match Rx.findBytes Gen.Rx.Channel.promptPattern b with
+        | some (b, _) => (toHex b, match Rx.findBytes (c10prompt ps nc) b with
             | some m => toHex m
             | none => "none")
-      let buf := if r.outcome == .ok then toHex lg.buf else "none"
+      let buf := if r.outcome == .ok && !noAuth then toHex lg.buf else "none"
       s!"{b2s dom} {outcomeStr sp} {showLines sl} {outcomeStr r.outcome} {b2s r.closed} {showHexList (writesOf r.trace)} {showLines (credLines r.trace)} {buf} {fst} {found} {b2s (paired P cfg none r.trace && redactedOk r.trace)}"
-    | _, _, _, _, _, _ => "bad-op"
+    | _, _, _, _, _, _, _ => "bad-op"
   | ["consts"] =>
     s!"{Gen.Channel.usernameSeenMax} {Gen.Channel.passwordSeenMax} {Gen.Channel.passphraseSeenMax}"
   | ["ssherr", h] =>
     match fromHex h with
-    | some b => b2s (c10pats.sshErr b)
+    | some b => b2s ((c10pats 0 false).sshErr b)
     | none => "bad-op"
   | _ => "bad-op"
 
